@@ -221,6 +221,7 @@ func runC02(c *config) {
 		c02One(c, in, i < 1)
 	}
 	c02Order(c) // names that form adversarial order families, eight fresh parses each (c02order.go)
+	c02Headers(c) // optional parts of declaration / definition headers in every combination (c02hdr.go)
 	_ = o
 }
 
@@ -929,6 +930,8 @@ func runC03(c *config) {
 	// address spaces throughout: memory accesses, address computations, atomics and calls through pointers in
 	// non-default address spaces (c03as.go)
 	c03AddrSpaces(c, newRng(c.seed, "c03as"))
+	// construction histories: print, append at the end, print again (c03hist.go)
+	c03Histories(c, newRng(c.seed, "c03hist"))
 }
 
 // c03Guarded runs one construction program under guard: a constructor that panics on a well-typed recipe is a
